@@ -124,6 +124,10 @@ def run(chk):
             self.name, self.raw = name, np.array(pts, dtype=object)
         def __len__(self):
             return len(self.raw)
+        def __eq__(self, other):          # as XGrid: equal iff the same nodes
+            return isinstance(other, G) and len(self) == len(other) and all(T.lift(a).n == T.lift(b).n for a, b in zip(self.raw, other.raw))
+        def __hash__(self):
+            return hash(tuple(T.lift(a).n for a in self.raw))
 
     built = []
 
@@ -143,7 +147,8 @@ def run(chk):
     try:
         same_t, same_i = G("current grid again (target)", list(old.raw)), G("current grid again (input)", list(old.raw))
         for nm, tg, ig in (("target_only", tgt, None), ("input_only", None, inp), ("both", tgt, inp),
-                           ("target_is_current_input_new", same_t, inp), ("target_new_input_is_current", tgt, same_i), ("both_are_current", same_t, same_i)):
+                           ("target_is_current_input_new", same_t, inp), ("target_new_input_is_current", tgt, same_i), ("both_are_current", same_t, same_i),
+                           ("both_the_same_new_grid", tgt, tgt), ("both_equal_new_grids", tgt, G("target again (input)", list(tgt.raw)))):
             built.clear()
             tag = f"C42.xgrid[{nm}]"
             try:
